@@ -5,4 +5,4 @@ META = dict(trusted_base=COMMON_TB, assumptions=COMMON_ASSUME + [
 
 
 def items(tier):
-    return contract_items("C18")
+    return contract_items("C18", tier)
